@@ -1,14 +1,23 @@
-(* C06 — backward requests undo edits.  PARTIAL in Coq: exact restoration is proved at distribution sites
-   (Update with plain / masked constraints, Regenerate) and the negation of the weight is proved for every
-   program whenever the backward edit restores the score; exact restoration through every combinator is decided
-   on each run by the correspondence (the model's backward request is compared with the implementation's and then
-   applied) and by the direct oracle (apply the implementation's backward request, compare with the original
-   trace).  Known findings: K19 (switch), K24 (scan regenerate), K25 (mask switched off). *)
+(* C06 — backward requests undo edits.
+   Proved in full for Update on every program built from distributions, the static language, vmap, scan and dimap
+   (and what is derived from them: repeat, iterate, accumulate, reduce, map, contramap ...): applying the
+   returned backward request to the new trace with the original arguments returns EXACTLY the original trace
+   (choices, score, return value, stored arguments) with the negated weight (C06_update_roundtrip).
+   PARTIAL elsewhere: Regenerate is proved at distribution sites; through mask and switch the implementation does
+   not restore (known findings K25, K19) and a Regenerate on a scan cannot be undone (K24); those requests are
+   decided on each run by the correspondence (the model's backward request is compared with the implementation's
+   and applied) and by the direct oracle (apply the implementation's backward request, compare with the original). *)
 From Coq Require Import List ZArith.
 Import ListNotations.
 From Model Require Import Key Sel GFI GFIEdit.
-From Proofs Require Import GFIBase GFIWf GFIEditProofs GFIRoundtrip.
+From Proofs Require Import GFIBase GFIWf GFIEditProofs GFIRoundtrip GFIRoundtripAll.
 Open Scope Z_scope.
+
+Theorem C06_update_roundtrip : forall g k t c a tg t' w b,
+  wfg g -> simple g -> wft g t -> edit g k t (RUpdate c) a tg = Ok (t', w, b) ->
+  exists bc, b = RUpdate bc /\ forall k' tg', exists b', edit g k' t' b (t_args t) tg' = Ok (t, - w, b').
+Proof. exact update_roundtrip. Qed.
+Print Assumptions C06_update_roundtrip.
 
 Theorem C06_site_roundtrip_partial : forall d k k' t r a tg tg' t' w b,
   plain r -> wft (GDist d) t -> edit (GDist d) k t r a tg = Ok (t', w, b) ->
